@@ -16,13 +16,22 @@ Oracle: every read == model (hence Python == Rust); a snapshot round trip (Pytho
 `CPURegistersSnapshot.from_registers -> apply_to(fresh)` optionally through the pce500 `registers.bin`
 packer; Rust `collect_registers [-> pack_registers -> unpack_registers] -> apply_registers(fresh)`)
 reproduces every value the same register file returned just before it.
+
+Snapshot *generations*: the op "rtf" takes the snapshot through the real file path --
+`CoreRuntime::save_snapshot(path)` -> `CoreRuntime::new().load_snapshot(path)` on the runtime facade and
+`PCE500Emulator.save_snapshot(path)` -> `PCE500Emulator().load_snapshot(path)` on the Python side -- and the
+freshly loaded runtime/machine *replaces* the current one, so that later writes and snapshots in the same
+history are made by a register file that was itself restored from a snapshot (where state cached at load
+time -- e.g. `CoreRuntime.metadata` -- can shadow the live registers).  Same oracle: the values read just
+before the snapshot must be read back from the fresh register file.
 """
 
 from __future__ import annotations
 
+import os
 from typing import Any, Dict, Iterator, List, Optional, Sequence, Tuple
 
-from ..core import Ctx, HarnessError, Report, Violation, jhash, mix32
+from ..core import ROOT, Ctx, HarnessError, Report, Violation, jhash, mix32
 from .. import rsclient
 from ..gen_state import Stream
 from ..c08_model import (CORE_NAMES, FLAG_NAME, GROUP, INDEX, MEMBERS, NAMES, TEMP_NAMES, WIDTH, Model, mask)
@@ -31,9 +40,14 @@ PROPERTY = "C08"
 RULE = ("histories of by-name writes (A,B,BA,IL,IH,I,X,Y,U,S,PC,F,FC,FZ,TEMP0..13 and the C/Z flag API) of 32-bit "
         "values (boundary set + random), interleaved with reads and snapshot round trips, each executed on the "
         "Python Registers, the Rust LlamaState and the Rust CoreRuntime by-name facade, every read compared "
-        "with the reference model. Sources: Hypothesis lists (<= 50 ops), seeded pseudo-random histories (<= 50 "
-        "ops, half of them focused on one overlap group) and a deterministic sweep of all ordered write pairs x "
-        "boundary values x start states (+ single-bit value probes). Non-trivial = the history writes a sub-register after "
+        "with the reference model. Snapshot ops: direct, registers.bin blob, and the snapshot *file* path "
+        "(CoreRuntime::save_snapshot/load_snapshot, PCE500Emulator.save_snapshot/load_snapshot) whose freshly "
+        "loaded runtime replaces the current one, giving chains of snapshot generations. "
+        "Sources: Hypothesis lists (<= 50 ops), seeded pseudo-random histories (<= 50 "
+        "ops, half of them focused on one overlap group), seeded generation chains (2..5 snapshots with writes "
+        "between them), a deterministic sweep of all ordered write pairs x "
+        "boundary values x start states (+ single-bit value probes) and a deterministic sweep of two-generation "
+        "chains (every name changed between the generations x snapshot-path pairs x start states). Non-trivial = the history writes a sub-register after "
         "a full-register write of the same register (or vice versa), or interleaves F/FC/FZ(/flag API) writes, "
         "and reads that register afterwards; distinct = hash of the op list.")
 
@@ -67,14 +81,64 @@ def _py_api() -> Dict[str, Any]:
             _PY.update(pack=_pack_register_bytes, unpack=_unpack_register_bytes)
         except Exception:  # the pce500 packer is a bonus path, not part of the anchors
             _PY.update(pack=None, unpack=None)
+        try:
+            from pce500.emulator import PCE500Emulator
+
+            _PY.update(Emulator=PCE500Emulator)
+        except Exception:  # same: the machine-level snapshot file path is a bonus path
+            _PY.update(Emulator=None)
     return _PY
+
+
+# ---- scratch files for the snapshot *file* path ("rtf") -------------------------------------------------
+
+def _scratch_dir() -> str:
+    d = os.path.join(ROOT, "scratch", f"c08-{os.getpid()}")
+    os.makedirs(d, exist_ok=True)
+    return d
+
+
+def _remove_scratch_dir() -> None:
+    d = os.path.join(ROOT, "scratch", f"c08-{os.getpid()}")
+    try:
+        if os.path.isdir(d):
+            for f in os.listdir(d):
+                if f.startswith("c08-") and f.endswith(".pcsnap"):
+                    os.remove(os.path.join(d, f))
+            os.rmdir(d)
+    except OSError:
+        pass
+
+
+def _uses_file(ops: Sequence[Op]) -> bool:
+    return any(op[0] == "rtf" for op in ops)
+
+
+def _py_machine(api: Dict[str, Any]) -> Any:
+    """A fresh PC-E500 machine; its `cpu.regs` is a plain `Registers` (python backend)."""
+    return api["Emulator"](trace_enabled=False, perfetto_trace=False, save_lcd_on_exit=False)
 
 
 def _py_read_all(regs: Any, api: Dict[str, Any]) -> List[int]:
     return [regs.get(r) for r in api["enum"]]
 
 
-def _py_roundtrip(regs: Any, api: Dict[str, Any], blob: bool) -> Tuple[Any, str]:
+def _py_file_roundtrip(emu: Any, api: Dict[str, Any]) -> Any:
+    """PCE500Emulator.save_snapshot(path) -> a brand-new machine's load_snapshot(path); returns that machine."""
+    path = os.path.join(_scratch_dir(), "c08-py.pcsnap")
+    try:
+        emu.save_snapshot(path)
+        fresh = _py_machine(api)
+        fresh.load_snapshot(path)
+    finally:
+        try:
+            os.remove(path)
+        except OSError:
+            pass
+    return fresh
+
+
+def _py_roundtrip(regs: Any, api: Dict[str, Any], blob: bool, fresh: Any = None) -> Tuple[Any, str]:
     Snapshot = api["Snapshot"]
     snap = Snapshot.from_registers(regs)
     n = ""
@@ -86,7 +150,8 @@ def _py_roundtrip(regs: Any, api: Dict[str, Any], blob: bool) -> Tuple[Any, str]
         snap = Snapshot(pc=vals["pc"], ba=vals["ba"], i=vals["i"], x=vals["x"], y=vals["y"], u=vals["u"],
                         s=vals["s"], f=vals["f"], temps={int(k): int(v) for k, v in snap.temps.items()},
                         call_sub_level=int(snap.call_sub_level))
-    fresh = api["Registers"]()
+    if fresh is None:
+        fresh = api["Registers"]()
     snap.apply_to(fresh)
     return fresh, n
 
@@ -94,7 +159,13 @@ def _py_roundtrip(regs: Any, api: Dict[str, Any], blob: bool) -> Tuple[Any, str]
 def py_run(ops: Sequence[Op]) -> List[Any]:
     """Observations aligned with ops; an exception ends the list with {"error": ...}."""
     api = _py_api()
-    regs = api["Registers"]()
+    # Histories with a file round trip run on the register file of a PC-E500 machine (still a plain `Registers`,
+    # the one `save_snapshot/load_snapshot` capture/restore); every "fresh register file" of such a history is
+    # the register file of a brand-new machine.
+    emu = _py_machine(api) if _uses_file(ops) and api.get("Emulator") is not None else None
+    if emu is not None and (type(emu.cpu.regs) is not api["Registers"] or any(_py_read_all(emu.cpu.regs, api))):
+        emu = None  # not a fresh plain register file (e.g. a reset vector in PC): keep to the documented `Registers()`
+    regs = emu.cpu.regs if emu is not None else api["Registers"]()
     out: List[Any] = []
     for op in ops:
         verb = op[0]
@@ -111,10 +182,19 @@ def py_run(ops: Sequence[Op]) -> List[Any]:
                 out.append(int(regs.get_flag(op[1])))
             elif verb == "all":
                 out.append(_py_read_all(regs, api))
-            elif verb in ("rt", "rtb"):
+            elif verb in ("rt", "rtb") or (verb == "rtf" and emu is None):
                 before = _py_read_all(regs, api)
-                regs, n = _py_roundtrip(regs, api, verb == "rtb")
-                out.append({"before": before, "after": _py_read_all(regs, api), "blob": n})
+                if emu is not None:
+                    emu = _py_machine(api)
+                    regs, n = _py_roundtrip(regs, api, verb == "rtb", emu.cpu.regs)
+                else:
+                    regs, n = _py_roundtrip(regs, api, verb != "rt")
+                out.append({"before": before, "after": _py_read_all(regs, api), "blob": n if verb != "rtf" else ""})
+            elif verb == "rtf":
+                before = _py_read_all(regs, api)
+                emu = _py_file_roundtrip(emu, api)
+                regs = emu.cpu.regs
+                out.append({"before": before, "after": _py_read_all(regs, api), "blob": ""})
             elif verb == "collect":
                 out.append(dict(api["Snapshot"].from_registers(regs).to_dict()))
             else:
@@ -133,7 +213,9 @@ def py_run(ops: Sequence[Op]) -> List[Any]:
 
 def rs_run(seqs: Sequence[Sequence[Op]]) -> List[Dict[str, Any]]:
     """One result per sequence: {"obs": [...]} | {"error": str} | {"panic": str}."""
-    req = {"cmd": "c08.run", "seqs": [list(s) for s in seqs]}
+    req: Dict[str, Any] = {"cmd": "c08.run", "seqs": [list(s) for s in seqs]}
+    if any(_uses_file(s) for s in seqs):
+        req["dir"] = _scratch_dir()
     try:
         resp = rsclient.shared().call(req)
     except HarnessError:
@@ -197,6 +279,8 @@ def walk_model(ops: Sequence[Op], detailed: bool = True) -> Tuple[List[Any], Lis
     pending_nt: Dict[str, str] = {}             # group -> nt label waiting for a read of that group
     labels: List[str] = []
     nt = False
+    snaps = 0                        # snapshot generations so far
+    since: Optional[str] = None      # what was written since the last snapshot op (None / "core" / "TEMP")
 
     def exp_of(name: str) -> Any:
         if not detailed:
@@ -232,6 +316,8 @@ def walk_model(ops: Sequence[Op], detailed: bool = True) -> Tuple[List[Any], Lis
             labels.append("write:" + ("TEMP" if name.startswith("TEMP") else verb + ":" + op[1]))
             v = int(op[2])
             labels.append("value:" + ("fits" if v == (v & mask(name)) else "truncated"))
+            if snaps:
+                since = "TEMP" if name.startswith("TEMP") or since == "TEMP" else "core"
             out.append(None)
         elif verb == "get":
             note_read([op[1]])
@@ -239,11 +325,17 @@ def walk_model(ops: Sequence[Op], detailed: bool = True) -> Tuple[List[Any], Lis
         elif verb == "getflag":
             note_read([FLAG_NAME[op[1]]])
             out.append(exp_of(FLAG_NAME[op[1]]))
-        elif verb in ("all", "rt", "rtb"):
+        elif verb in ("all", "rt", "rtb", "rtf"):
             note_read(NAMES)
             out.append([exp_of(n) for n in NAMES] if detailed else m.read_all())
             if verb != "all":
                 labels.append("roundtrip:" + verb)
+                if snaps and since:
+                    # a register file that was itself restored from a snapshot, then written, is snapshotted
+                    labels.append(f"chain:{verb}-of-restored-file:{since}-changed")
+                snaps += 1
+                since = None
+                labels.append("generations:%s" % (snaps if snaps < 4 else "4+"))
         elif verb == "collect":
             out.append(("collect", m.read_all()))
         else:
@@ -264,7 +356,7 @@ def _fast_ok(ops: Sequence[Op], exp: List[Any], py: List[Any], rs: Any) -> bool:
             elif verb == "all":
                 if p != e or r["st"] != e or r["rt"] != e:
                     return False
-            elif verb in ("rt", "rtb"):
+            elif verb in ("rt", "rtb", "rtf"):
                 if p["before"] != e or p["after"] != e:
                     return False
                 if r["before"]["st"] != e or r["after"]["st"] != e or r["before"]["rt"] != e or r["after"]["rt"] != e:
@@ -333,14 +425,14 @@ def check_impl(impl: str, ops: Sequence[Op], exp: List[Any], obs: List[Any], cas
                 v = _check_read(impl, ee, got, case, i, op, notes)
                 if v:
                     out.append(v)
-        elif verb in ("rt", "rtb"):
+        elif verb in ("rt", "rtb", "rtf"):
             for ee, got in zip(e, o["before"]):
                 v = _check_read(impl, ee, got, case, i, op, notes)
                 if v:
                     out.append(v)
             if not out:
                 bad = {n: (b, a) for n, b, a in zip(NAMES, o["before"], o["after"]) if a != b}
-                kind = "direct" if verb == "rt" else "blob"
+                kind = "direct" if verb == "rt" else "blob" if verb == "rtb" else _file_kind(impl)
                 for g, members in MEMBERS.items():
                     mb = [n for n in members if n in bad]
                     # one verdict per backing store; aliases only when the full register itself came back right
@@ -355,6 +447,15 @@ def check_impl(impl: str, ops: Sequence[Op], exp: List[Any], obs: List[Any], cas
     return out
 
 
+def _file_kind(impl: str) -> str:
+    """What an "rtf" op exercises on each register file (fingerprint component)."""
+    if impl == "rs-runtime":
+        return "file"          # CoreRuntime::save_snapshot -> CoreRuntime::new().load_snapshot
+    if impl == "py" and _py_api().get("Emulator") is not None:
+        return "file"          # PCE500Emulator.save_snapshot -> PCE500Emulator().load_snapshot
+    return "blob"              # bare LlamaState: no file path of its own, same as "rtb"
+
+
 def check_temp_diff(ops: Sequence[Op], all_obs: Dict[str, List[Any]], case: Dict[str, Any]) -> List[Violation]:
     """TEMP values are modelled only up to width, so Python<->Rust agreement is asserted separately."""
     def temp_reads(o: Any, op: Op) -> Optional[List[Tuple[str, Any]]]:
@@ -363,7 +464,7 @@ def check_temp_diff(ops: Sequence[Op], all_obs: Dict[str, List[Any]], case: Dict
             return [(op[1], o)]
         if verb == "all" and isinstance(o, list):
             return [(n, o[INDEX[n]]) for n in TEMP_NAMES]
-        if verb in ("rt", "rtb") and isinstance(o, dict) and "after" in o:
+        if verb in ("rt", "rtb", "rtf") and isinstance(o, dict) and "after" in o:
             return [(n, o["after"][INDEX[n]]) for n in TEMP_NAMES]
         return None
 
@@ -526,6 +627,52 @@ def sweep_cases(tier: str) -> Iterator[Tuple[str, List[Op]]]:
                     yield "sweep:bits", pre + [_write_op(t, v), ["all"], ["rtb" if bit % 2 else "rt"], ["all"]]
 
 
+GEN_KIND_PAIRS = (("rtf", "rtf"), ("rt", "rtf"), ("rtf", "rt"), ("rtb", "rtf"), ("rtf", "rtb"))
+GEN_VALUE_PAIRS = ((0xA5A5A5A5, 0x5A5A5A5A), (1, 0))
+
+
+def sweep_generation_cases(tier: str) -> Iterator[Tuple[str, List[Op]]]:
+    """Snapshot *generations* (complete enumeration): a register file restored from a snapshot is written to and
+    snapshotted again.  Every name (all 28 + the flag API) is the register changed between the two generations;
+    every pair of snapshot paths that involves the file path; every start state."""
+    variants = (0, 1) if tier == "quick" else (0, 1, 2)
+    for variant in variants:
+        pre = _prefill(variant)
+        for t in CORE_NAMES + ("flag:C", "flag:Z") + TEMP_NAMES:
+            for k1, k2 in GEN_KIND_PAIRS:
+                for v1, v2 in GEN_VALUE_PAIRS:
+                    yield "sweep:generations", pre + [_write_op(t, v1), ["all"], [k1], ["all"], _write_op(t, v2),
+                                                      ["all"], [k2], ["all"]]
+
+
+def generation_sequences(seed: int, shard: int, n: int) -> List[List[Op]]:
+    """Seeded chains of 2..5 snapshot generations: each generation writes 1..4 registers (half of the writes go
+    to TEMPs, which travel outside registers.bin), reads everything back, and is snapshotted -- mostly through
+    the file path -- into a fresh register file that becomes the next generation."""
+    out: List[List[Op]] = []
+    for j in range(n):
+        st = Stream(seed, 0xC08, 0x6E6, shard, j)
+        ops: List[Op] = list(_prefill(st.below(3))) if st.chance(1, 3) else []
+        for _ in range(2 + st.below(4)):
+            for _ in range(1 + st.below(4)):
+                k = st.below(4)
+                v = st.choice(BOUNDARY) if k < 2 else st.u32() if k == 2 else st.u32() & 0xFFFF
+                r = st.below(10)
+                if r < 5:
+                    ops.append(["set", st.choice(TEMP_NAMES), v])
+                elif r < 9:
+                    ops.append(["set", st.choice(CORE_NAMES), v])
+                else:
+                    ops.append(["setflag", st.choice(("C", "Z")), v])
+            if st.chance(1, 2):
+                ops.append(["all"])
+            r = st.below(10)
+            ops.append(["rtf"] if r < 6 else ["rt"] if r < 8 else ["rtb"])
+            ops.append(["all"])
+        out.append(ops)
+    return out
+
+
 def _hyp_sequences(seed: int, n: int, min_ops: int = 1) -> List[List[Op]]:
     import hypothesis
     from hypothesis import HealthCheck, given, settings, strategies as st
@@ -536,8 +683,10 @@ def _hyp_sequences(seed: int, n: int, min_ops: int = 1) -> List[List[Op]]:
     flag = st.sampled_from(["C", "Z"])
     write = st.one_of(st.tuples(st.just("set"), name, value), st.tuples(st.just("set"), name, value),
                       st.tuples(st.just("set"), name, value), st.tuples(st.just("setflag"), flag, value))
+    # snapshot ops: the file path costs ~20 ms per op on the Python side, so it gets 1/5 of the snapshot ops
+    snap = st.sampled_from([("rt",), ("rt",), ("rtb",), ("rtb",), ("rtf",)])
     other = st.one_of(st.tuples(st.just("get"), name), st.tuples(st.just("getflag"), flag), st.just(("all",)),
-                      st.just(("rt",)), st.just(("rtb",)), st.just(("collect",)))
+                      snap, snap, st.just(("collect",)))
     op = st.one_of(write, write, other)
     seqs: List[List[Op]] = []
 
@@ -597,12 +746,14 @@ def stream_sequences(seed: int, shard: int, n: int) -> List[List[Op]]:
                 ops.append(["get", name()])
             elif r < 84:
                 ops.append(["getflag", st.choice(("C", "Z"))])
-            elif r < 92:
+            elif r < 91:
                 ops.append(["all"])
-            elif r < 95:
+            elif r < 94:
                 ops.append(["rt"])
-            elif r < 98:
+            elif r < 97:
                 ops.append(["rtb"])
+            elif r < 98:
+                ops.append(["rtf"])
             else:
                 ops.append(["collect"])
             if dense and ops[-1][0] in ("set", "setflag"):
@@ -653,6 +804,13 @@ def _preload() -> None:
 
 
 def _shard(task: Tuple[str, int, int, int, str, int]) -> Report:
+    try:
+        return _shard_inner(task)
+    finally:
+        _remove_scratch_dir()
+
+
+def _shard_inner(task: Tuple[str, int, int, int, str, int]) -> Report:
     kind, shard, nshards, seed, tier, n = task
     rep = Report()
     _preload()
@@ -662,6 +820,12 @@ def _shard(task: Tuple[str, int, int, int, str, int]) -> Report:
         eval_batch(items, rep)
     elif kind == "stream":
         eval_batch([("stream", ops) for ops in stream_sequences(seed, shard, n)], rep)
+    elif kind == "gen":
+        eval_batch([("generations", ops) for ops in generation_sequences(seed, shard, n)], rep)
+    elif kind == "sweepgen":
+        items = [(fam, ops) for k, (fam, ops) in enumerate(sweep_generation_cases(tier)) if k % nshards == shard]
+        eval_batch(items, rep)
+        rep.extra["sweep_generation_cases"] = len(items)
     else:
         items = [(fam, ops) for k, (fam, ops) in enumerate(sweep_cases(tier)) if k % nshards == shard]
         eval_batch(items, rep)
@@ -683,9 +847,14 @@ def run(ctx: Ctx) -> Report:
     n_hyp = ctx.pick(200, 500)
     n_stream = ctx.pick(500, 1200)
     n_sweep = ctx.pick(16, 32)
+    n_gen = ctx.pick(40, 150)
+    n_gen_shards = 16
     tasks: List[Tuple[str, int, int, int, str, int]] = []
     for i in range(n_sweep):
         tasks.append(("sweep", i, n_sweep, ctx.seed, ctx.tier, 0))
+    for i in range(n_gen_shards):
+        tasks.append(("sweepgen", i, n_gen_shards, ctx.seed, ctx.tier, 0))
+        tasks.append(("gen", i, n_gen_shards, mix32(0xC08, ctx.seed, 0x6E6E), ctx.tier, n_gen))
     for i in range(n_hyp_shards):
         # not ctx.shard_seed(i): mix32(seed, i, ..) xors seed and i before mixing, so small seeds would only
         # permute one set of shard seeds (seed 1 shard 1 == seed 2 shard 2); mix the run seed in first.
@@ -699,6 +868,7 @@ def run(ctx: Ctx) -> Report:
     rep.extra["sweep_complete"] = True
     rep.extra["hypothesis_sequences"] = n_hyp_shards * n_hyp
     rep.extra["stream_sequences"] = n_hyp_shards * n_stream
+    rep.extra["generation_sequences"] = n_gen_shards * n_gen
     rep.assumptions = [
         "pointer registers X, Y, U, S are 20 bits as the property statement says (the README table says 24)",
         "FC/FZ (and the C/Z flag API) are 1-bit registers: a written value is truncated to bit 0 (README: size 1)",
@@ -712,6 +882,11 @@ def run(ctx: Ctx) -> Report:
         "the contents of a snapshot (to_dict / collect_registers map / registers.bin bytes) are not asserted, "
         "only that applying it to a fresh register file reproduces every read; TEMPn travel beside the blob "
         "(metadata.temps) exactly as save_snapshot/load_snapshot carry them",
+        "the file path ('rtf') is CoreRuntime::save_snapshot -> CoreRuntime::new().load_snapshot on the runtime "
+        "facade and PCE500Emulator.save_snapshot -> PCE500Emulator().load_snapshot on the Python side (histories "
+        "with an 'rtf' op run on the `Registers` of a PC-E500 machine, which reads 0 everywhere when new); the bare "
+        "LlamaState has no file path and does the blob round trip there; only register reads are compared, not "
+        "memory, counters or other snapshot contents (C16/C17)",
         "call_sub_level and the Rust-only IMR mirror register are not part of the statement and not compared",
         "Python == model and Rust == model imply Python == Rust; a separate differential verdict exists only "
         "for TEMP values",
@@ -726,8 +901,11 @@ def replay(ctx: Ctx, case: Dict[str, Any]) -> List[Violation]:
         return rep.violations
     rsclient.build()
     ops = [list(o) for o in case["ops"]]
-    res = rs_run([ops])[0]
-    viols, _, _ = evaluate(ops, res)
+    try:
+        res = rs_run([ops])[0]
+        viols, _, _ = evaluate(ops, res)
+    finally:
+        _remove_scratch_dir()
     return viols
 
 
@@ -745,6 +923,13 @@ def _has_fp(ops: List[Op], key: str) -> Optional[Violation]:
 
 
 def shrink(ctx: Ctx, v: Violation) -> Violation:
+    try:
+        return _shrink(ctx, v)
+    finally:
+        _remove_scratch_dir()
+
+
+def _shrink(ctx: Ctx, v: Violation) -> Violation:
     """Greedy op deletion, then value simplification, keeping the same fingerprint."""
     import time
 
